@@ -290,9 +290,17 @@ func compareSuffixArrays(a, b []suffix) int {
 		}
 	}
 
-	// If all compared suffixes are equal, the longer array is "smaller"
-	// This means "alpha_pre" < "alpha" (more suffixes = less stable)
-	return compareInt(len(b), len(a))
+	// If all compared suffixes are equal, the version with an additional suffix is
+	// older when that suffix is a pre-release one (1.0_alpha1_pre < 1.0_alpha1) and
+	// newer when it is a post-release one (1.0_p1_p2 > 1.0_p1): the extra suffix is
+	// compared against "no suffix", exactly as for a version without any suffix.
+	if len(a) > len(b) {
+		return compareSuffixes(a[minLen], suffix{name: "", number: 0})
+	}
+	if len(b) > len(a) {
+		return compareSuffixes(suffix{name: "", number: 0}, b[minLen])
+	}
+	return 0
 }
 
 // compareSuffixes compares two individual suffixes
